@@ -178,6 +178,37 @@ def secretJob : Nat → St → Lease → Nat → St
         markIrrevocable s l
       else secretJob fuel s l attempts
 
+/-- the same job when the storage READ of the lease entry fails `faults` times at the point where `OnFailure` wants to
+mark the lease irrevocable (budget spent, or an unrecoverable error): the lease can be neither revoked nor marked right
+now, so the timer is re-armed with the attempt counter held just below the budget — the next attempt revokes the lease
+or, failing again, marks it (repair F66). -/
+def secretJobF : Nat → St → Lease → Nat → Nat → St
+  | 0, s, _, _, _ => { s with outOfFuel := true }
+  | fuel+1, s, l, attempts, faults =>
+    let s := loadMark s l
+    let (ok, s) := backendRevoke s l.id
+    if ok then untrack (delLease s l.id) l.id
+    else
+      let attempts := attempts + 1
+      if attempts ≥ maxRevokeAttempts || s.fail == .unrecoverable then
+        match faults with
+        | 0 => markIrrevocable s l
+        | f+1 => secretJobF fuel s l (min attempts (maxRevokeAttempts - 1)) f
+      else secretJobF fuel s l attempts faults
+
+/-- the job before the repair F66: when that read failed, `OnFailure` just returned — timer fired and not re-armed,
+nothing marked: the lease stays stored and "pending" with nothing left to ever revoke it on this node -/
+def secretJobDrop : Nat → St → Lease → Nat → St
+  | 0, s, _, _ => { s with outOfFuel := true }
+  | fuel+1, s, l, attempts =>
+    let s := loadMark s l
+    let (ok, s) := backendRevoke s l.id
+    if ok then untrack (delLease s l.id) l.id
+    else
+      let attempts := attempts + 1
+      if attempts ≥ maxRevokeAttempts || s.fail == .unrecoverable then s
+      else secretJobDrop fuel s l attempts
+
 /-- `Revoke(leaseID)` called synchronously: `none` = the backend refused (state: only the call is counted) -/
 def revokeSync (s : St) (l : Lease) (now : Int) : Bool × St :=
   if l.isAuth then (true, revokeToken s l.id now)
@@ -323,6 +354,20 @@ def revoke (s : St) (id : Nat) (sync : Bool) (now : Int) : St × Out :=
       let s := lazyRevoke s id now
       (settle (settleFuel s) s now, .ok)
 
+/-- forced expiry of a secret lease (as `revoke … sync := false`) whose revocation job meets ONE failing storage read
+of the lease entry inside `OnFailure` (harness: a one-shot read fault filtered by that stack frame) -/
+def revokeLoadFault (s : St) (id : Nat) (now : Int) : St × Out :=
+  match find? s id with
+  | none => (s, .ok)
+  | some l =>
+    if unreachable s l then (s, .err "sealed") else
+    if l.isAuth || s.frozen then (s, .bad) else
+    let s := loadMark s l                                  -- `lazyRevokeInternal`
+    let l := { l with expiry := some now }
+    let s := updatePending (putLease s l) l
+    let s := secretJobF (maxRevokeAttempts + 2) s l 0 1    -- the timer fires at once
+    (settle (settleFuel s) s now, .ok)
+
 /-- `auth/token/revoke`: an unusable / unknown token is a no-op -/
 def tokRevoke (s : St) (id : Nat) (now : Int) : St × Out :=
   if !tokenLive s id now then (s, .ok) else
@@ -456,6 +501,7 @@ inductive Op where
   | renew (id : Nat) (incr now : Int)
   | tokRenew (id : Nat) (incr now : Int)
   | revoke (id : Nat) (sync : Bool) (now : Int)
+  | revokeLoadFault (id : Nat) (now : Int)
   | tokRevoke (id : Nat) (now : Int)
   | age (id : Nat) (secs now : Int)
   | setFail (m : FailMode)
@@ -483,6 +529,7 @@ def applyOp (s : St) : Op → St × Out
   | .renew id incr now => renew s id incr now
   | .tokRenew id incr now => tokRenew s id incr now
   | .revoke id sync now => revoke s id sync now
+  | .revokeLoadFault id now => revokeLoadFault s id now
   | .tokRevoke id now => tokRevoke s id now
   | .age id secs now => age s id secs now
   | .setFail m => ({ s with fail := m }, .ok)
